@@ -207,6 +207,24 @@ pub fn c01(opts: &Opts, out: &mut Out) {
             out.case(format!("honest {} rng={:?}", inst.describe(), kind));
         }
     }
+    // the driver's scalar field against curve25519-dalek's `Scalar`, operation by operation (trusted-base validation)
+    let specials = [Scalar::ZERO, Scalar::ONE, -Scalar::ONE, Scalar::from(2u8), -Scalar::from(2u8), Scalar::from(u64::MAX)];
+    let nf = if opts.thorough { 2000 } else { 200 };
+    for i in 0..nf {
+        let a = if i < specials.len() { specials[i] } else { Scalar::random(&mut rng) };
+        let b = if i % 7 == 3 { specials[i % specials.len()] } else { Scalar::random(&mut rng) };
+        let mut wide_b = [0u8; 64];
+        rng.fill_bytes(&mut wide_b);
+        if i % 5 == 0 {
+            wide_b = [0xff; 64];
+        }
+        let n = (rng.next_u32() % 300) as u64;
+        let inv = if a == Scalar::ZERO { Scalar::ZERO } else { a.invert() };
+        out.req(
+            format!("fieldops a={} b={} wide={} n={}", hs(&a), hs(&b), hex(&wide_b), n),
+            format!("add={} sub={} mul={} neg={} inv={} wide={} pow={} nat={}", hs(&(a + b)), hs(&(a - b)), hs(&(a * b)), hs(&(-a)), hs(&inv), hs(&Scalar::from_bytes_mod_order_wide(&wide_b)), hs(&ff::Field::pow_vartime(&a, [n])), hs(&Scalar::from(n))),
+        );
+    }
     out.stat("lattice_points", lat.pts.len());
     out.stat("distinct_configs", cfgs.len());
 }
